@@ -1061,6 +1061,7 @@ class TokenizerCore:
             elif token_type == TokenType.BIT_STRING:
                 base = 2
             elif token_type == TokenType.HEREDOC_STRING:
+                line, col = self._line, self._col
                 self._advance()
 
                 if self._char == end:
@@ -1081,6 +1082,8 @@ class TokenizerCore:
                         self._advance(-1)
 
                     self._advance(-len(tag))
+                    # the tag may span line breaks, which _advance can't step back over
+                    self._line, self._col = line, col
                     self._add(self.heredoc_string_alternative)
                     return True
 
